@@ -22,8 +22,10 @@ macro_rules! dispatch {
             "C07" => $f(props::c07::C07, $($arg),*),
             "C08" => $f(props::c08::C08, $($arg),*),
             "C09" => $f(props::c09::C09, $($arg),*),
+            "C15" => $f(props::c15::C15, $($arg),*),
             "C16" => $f(props::c16::C16, $($arg),*),
             "C17" => $f(props::c17::C17, $($arg),*),
+            "C18" => $f(props::c18::C18, $($arg),*),
             _ => { eprintln!("unknown property {}", $id); 2 }
         }
     };
